@@ -7,6 +7,7 @@ import (
 
 	"ergo.services/ergo/act"
 	"ergo.services/ergo/gen"
+	"ergo.services/ergo/lib"
 
 	"verifsim/simkit"
 )
@@ -462,4 +463,106 @@ func (m *ProbeMeta) Terminate(reason error) {
 		h.MetaTerminate(m, reason)
 	}
 	m.once.Do(func() { close(m.term) })
+}
+
+// ---- a behaviour written directly against gen.ProcessBehavior ----
+
+// ProbeRaw is a process behaviour that implements gen.ProcessBehavior itself instead of using
+// act.Actor: its mailbox loop takes message after message and never looks at the process state in
+// between (a behaviour is not obliged to), so it returns from ProcessRun only when the mailbox is
+// empty - also when the process has been killed meanwhile.
+type ProbeRaw struct {
+	gen.Process
+	H           *Hooks
+	i           *inst
+	OnInit      func(p gen.Process) error
+	OnMessage   func(p gen.Process, from gen.PID, m any) error
+	OnCall      func(p gen.Process, from gen.PID, ref gen.Ref, req any) (any, error)
+	OnTerminate func(p gen.Process, reason error)
+}
+
+func (r *ProbeRaw) ProcessInit(p gen.Process, args ...any) error {
+	r.Process = p
+	r.H.enter(r.i, "init")
+	defer r.H.leave(r.i, "init")
+	if r.OnInit != nil {
+		return r.OnInit(p)
+	}
+	return nil
+}
+
+func (r *ProbeRaw) ProcessRun() error {
+	mb := r.Mailbox()
+	for {
+		var msg *gen.MailboxMessage
+		for _, q := range []lib.QueueMPSC{mb.Urgent, mb.System, mb.Main, mb.Log} {
+			if r.H.Env != nil {
+				r.H.Env.Gate("raw:" + r.H.Name + ":pop")
+			}
+			if m, ok := q.Pop(); ok {
+				msg = m.(*gen.MailboxMessage)
+				break
+			}
+		}
+		if msg == nil {
+			return nil
+		}
+		from, ref, typ, payload := msg.From, msg.Ref, msg.Type, msg.Message
+		gen.ReleaseMailboxMessage(msg)
+		switch typ {
+		case gen.MailboxMessageTypeRegular:
+			err := func() error {
+				r.H.enter(r.i, "message")
+				defer r.H.leave(r.i, "message")
+				if r.OnMessage != nil {
+					return r.OnMessage(r.Process, from, payload)
+				}
+				return nil
+			}()
+			if err != nil {
+				return err
+			}
+		case gen.MailboxMessageTypeRequest:
+			res, err := func() (any, error) {
+				r.H.enter(r.i, "call")
+				defer r.H.leave(r.i, "call")
+				if r.OnCall != nil {
+					return r.OnCall(r.Process, from, ref, payload)
+				}
+				return nil, nil
+			}()
+			if err != nil {
+				return err
+			}
+			if res != nil {
+				r.SendResponse(from, ref, res)
+			}
+		case gen.MailboxMessageTypeInspect:
+			r.H.enter(r.i, "inspect")
+			r.H.leave(r.i, "inspect")
+			r.SendResponse(from, ref, map[string]string{"probe": r.H.Name})
+		case gen.MailboxMessageTypeExit:
+			switch exit := payload.(type) {
+			case gen.MessageExitPID:
+				return fmt.Errorf("%s: %w", exit.PID, exit.Reason)
+			case gen.MessageExitProcessID:
+				return fmt.Errorf("%s: %w", exit.ProcessID, exit.Reason)
+			case gen.MessageExitAlias:
+				return fmt.Errorf("%s: %w", exit.Alias, exit.Reason)
+			case gen.MessageExitEvent:
+				return fmt.Errorf("%s: %w", exit.Event, exit.Reason)
+			case gen.MessageExitNode:
+				return fmt.Errorf("%s: %w", exit.Name, gen.ErrNoConnection)
+			}
+		}
+	}
+}
+
+func (r *ProbeRaw) ProcessTerminate(reason error) {
+	r.H.enter(r.i, "terminate")
+	defer r.H.leave(r.i, "terminate")
+	r.H.TermCount.Add(1)
+	if r.OnTerminate != nil {
+		r.OnTerminate(r.Process, reason)
+	}
 }
